@@ -1,4 +1,4 @@
-import H2T.Tree
+import H2T.Lemmas.Prune
 
 /-! # C18 — display:none hides exactly the matched subtrees
 
@@ -6,12 +6,32 @@ Status: **partial** — proved: an element whose computed style has a `display:n
 node, and its children are never even visited (so no text, prefix, footnote, cell or fragment marker of its
 subtree can appear: the render tree simply does not contain them); a hidden child is absent from its parent's
 child list exactly as if it had been deleted from the document; with document CSS disabled the `style`
-attribute is not consulted at all.  That the remaining elements are rendered as in the pruned document when
-*selectors of other rules* are involved (pruning renumbers siblings for `:nth-child`) is decided by
+attribute is not consulted at all.  **The document-level statement is proved** for every style sheet without
+`:nth-child` selectors (`hidden_is_pruned`): the render tree of a document equals the render tree of the document with
+every hidden element deleted (`pruneNode`) — so hidden subtrees contribute no text, prefix, footnote, cell or marker,
+and every other element is built exactly as if they were not there; the result then goes through the same renderer.
+The exclusion is necessary (`nth_child_exclusion_necessary`): deleting an element renumbers its later siblings.  For
+sheets with `:nth-child`, and for the effect of `<style>` elements inside hidden subtrees, the check relies on
 correspondence and the pruning oracle. -/
 
 namespace H2T.C18
 open H2T.Css
+
+/-- **hidden subtrees behave as if deleted**: for style data without `:nth-child` selectors, building a document equals
+    building the document from which every element with a winning `display:none` (or the zero-height idiom) has been
+    deleted, under the same styles -/
+theorem hidden_is_pruned (bc : BuildCfg) (hn : sheetNthFree bc.sd) (kids : List Node) :
+    build bc [] 0 (.doc (pruneList bc [{ isElem := false }] 0 kids)) = build bc [] 0 (.doc kids) := by
+  have := build_prune bc hn (.doc kids) [] [] 0 0 trivial
+  simp only [pruneNode] at this
+  exact this.1
+
+/-- the same for any element that is not itself hidden, anywhere in the document and at any sibling position -/
+theorem hidden_is_pruned_at (bc : BuildCfg) (hn : sheetNthFree bc.sd) (n n' : Node) (up : List Frame) (idx idx' : Nat)
+    (h : pruneNode bc up idx n = some n') : build bc up idx' n' = build bc up idx n := by
+  have := build_prune bc hn n up up idx idx' (ChainEq.refl up)
+  rw [h] at this
+  exact this.1
 
 /-- an element with a winning `display:none` yields no render node — `build` answers `some none` without
     looking at the element's children, name or attributes other than through the computed style -/
@@ -62,5 +82,28 @@ def kidsCount (r : Option (Option RNode)) : Option Nat :=
 
 example : kidsCount (build { sd := hideP, useDoc := false, ci := ⟨fun cp => mkCh cp⟩ } [] 1 doc) = some 1 := by decide +kernel
 example : kidsCount (build { sd := {}, useDoc := false, ci := ⟨fun cp => mkCh cp⟩ } [] 1 doc) = some 2 := by decide +kernel
+
+/-- the sheet `p{display:none}` is `:nth-child`-free, so `hidden_is_pruned` applies to it -/
+example : sheetNthFree hideP := by
+  refine ⟨?_, ?_, ?_⟩ <;> intro r hr <;> simp [hideP] at hr
+  subst hr; rfl
+
+/-- colour of the first child of the first child of a built document -/
+def firstGrandchildFg (r : Option (Option RNode)) : Option (Option Rgb) :=
+  match r with
+  | some (some (.box _ _ (.box _ _ (.box st _ _ :: _) :: _))) => some st.fg
+  | _ => none
+
+/-- **the `:nth-child` exclusion is necessary**: with `.h{display:none}` and `p:nth-child(2){color:#010203}`, the second
+    paragraph of `<div><p class=h>a</p><p>b</p></div>` is coloured; after deleting the hidden first paragraph it is the
+    first child and is not -/
+theorem nth_child_exclusion_necessary :
+    let sd : StyleData := { user := [{ selector := { comps := [.cls "h"] }, styles := [⟨.displayNone, false⟩] },
+                                     { selector := { comps := [.nth 0 2, .elem "p"] }, styles := [⟨.colour ⟨1, 2, 3⟩, false⟩] }] }
+    let bc : BuildCfg := { sd := sd, useDoc := false, ci := ⟨fun cp => mkCh cp⟩ }
+    let kids : List Node := [.elem "div" true [] [.elem "p" true [("class", strCh "h")] [.text (strCh "a")], .elem "p" true [] [.text (strCh "b")]]]
+    firstGrandchildFg (build bc [] 0 (.doc kids)) = some (some ⟨1, 2, 3⟩) ∧
+    firstGrandchildFg (build bc [] 0 (.doc (pruneList bc [{ isElem := false }] 0 kids))) = some none := by
+  decide +kernel
 
 end H2T.C18
